@@ -612,6 +612,8 @@ def op_from_json(j):
         return ('F', bytes.fromhex(j[1]))
     if j[0] == 'A':
         return ('A', j[1], bytes.fromhex(j[2]), bytes.fromhex(j[3]), j[4], j[5], j[6], bytes.fromhex(j[7]))
+    if j[0] == 'S':
+        return ('S', j[1], j[2], j[3], bytes.fromhex(j[4]))
     return tuple(j)
 
 
@@ -1215,6 +1217,17 @@ def explore_c08(prop, pd, tier, rng, corpus_cases):
                 cases.append(c)
                 ids.append(len(cases) - 1)
             groups.append((ids, f, cfgop))
+    # corpus: the known cookie collision (K1): probe of flow B after an accepted data segment of flow A
+    try:
+        k1 = case_from_json(json.load(open(os.path.join(CORPUS, 'K1-collision.json'))), 'K1-collision.json')
+        fa, fb = k1['ops'][2][1], k1['ops'][3][1]
+        ids = []
+        for vh in ([fa], []):
+            cases.append({'ops': [k1['ops'][0], ('X',)] + [('F', x) for x in vh] + [('F', fb)], 'tags': ['corpus:K1']})
+            ids.append(len(cases) - 1)
+        groups.append((ids, fb, k1['ops'][0]))
+    except FileNotFoundError:
+        pass
     run_cases(cases)
     violations, disagreements, samples = [], [], []
     nontrivial = 0
